@@ -74,6 +74,28 @@ def exponent_rule(ck, ix):
             p = edge_leads_only_to_raise(cfg, t, "t")
             ck.check(p is None, "G-DOM", f"{q}|dimensional-exponent-raises|L{cfg.nodes[t].lineno - fi.node.lineno}", fi.loc(cfg.nodes[t].ast), "a dimensional exponent raises DimensionalityError", "a dimensional exponent does not raise", witness(cfg, p))
 
+
+def scalar_coercion_rule(ck, ix):
+    """int(q), float(q), complex(q): a dimensionless quantity is coerced through its value in *no* units (1 km/m is
+    1000, 180 degree is pi); everything else raises DimensionalityError.  The three siblings must agree."""
+    shapes = {}
+    for name, fn in (("__int__", "int"), ("__float__", "float"), ("__complex__", "complex")):
+        fi = ix.func(PQ, f"PlainQuantity.{name}")
+        ck.analysed(fi)
+        cfg = cfg_of(fi)
+        rets = [r for r in walk_local(fi.node) if isinstance(r, ast.Return) and r.value is not None]
+        for r in rets:
+            v = r.value
+            ok = isinstance(v, ast.Call) and call_name(v) == fn and len(v.args) == 1 and norm(v.args[0]) in (
+                "self._convert_magnitude_not_inplace(UnitsContainer())", "self._convert_magnitude_not_inplace(self.UnitsContainer())", "self.m_as('')", "self.m_as(UnitsContainer())", "self.to('').magnitude")
+            ck.check(ok, "G-TAG", f"PlainQuantity.{name}|value-in-no-units", fi.loc(r), f"{fn}(magnitude converted to no units)",
+                     f"`{norm(r)}`: {fn}() of a dimensionless quantity must use the magnitude converted to no units (1 km/m -> 1000, 180 degree -> pi), not the magnitude as stored")
+        gates = [n.id for n in cfg.nodes if n.kind == "test" and norm(n.ast) == "self.dimensionless"]
+        ck.check(bool(gates) and all(edge_leads_only_to_raise(cfg, g, "f") is None for g in gates), "G-DOM", f"PlainQuantity.{name}|dimensional-quantity-raises", fi.loc(), "a dimensional quantity raises DimensionalityError",
+                 f"{name} no longer raises for a quantity that is not dimensionless")
+        shapes[name] = [norm(r.value.args[0]) if isinstance(r.value, ast.Call) and r.value.args else norm(r.value) for r in rets]
+    ck.check(len({tuple(v) for v in shapes.values()}) == 1, "G-TWIN", "PlainQuantity.__int__/__float__/__complex__|siblings-agree", ix.func(PQ, "PlainQuantity.__float__").loc(), "the three coercions take the same value", f"the scalar coercions disagree: {shapes}")
+
 def run(ck, ix, tier):
     ck.rule("G-TAG", "abstract interpretation over the unit-tag domain: combined magnitudes carry equal unit tags")
     n_paths = {}
@@ -203,6 +225,7 @@ def run(ck, ix, tier):
             ck.check(bool(gate) and p is None, "G-DOM", f"{q}|dimensionality-gate-dominates-combination", fi.loc(cfg.nodes[o].ast), "two quantities are only combined after the dimensionality test",
                      "two quantity magnitudes can be combined without the dimensionality test", witness(cfg, p))
     exponent_rule(ck, ix)
+    scalar_coercion_rule(ck, ix)
     from .C05 import eq_zero_rule
     eq_zero_rule(ck, ix)  # equality is one of the operators of C03
     return EXPLANATION
